@@ -9,6 +9,7 @@ def stepLine (_ : Unit) (line : String) : Unit × List String :=
   | "park" :: _ => ((), ["ok parked-writes=0"])
   | ["bulk", _] => ((), ["ok writes-inside-statement=0"])
   | ["idle", _] => ((), ["ok"])
+  | ["slow-open"] => ((), ["ok"])
   | ["storm"] => ((), ["done"])
   | ["races"] => ((), ["races 0"])
   | _ => ((), [])
@@ -24,6 +25,10 @@ def judgeLine (caseId : String) (op : String) (outs : List String) : String × L
     let o := outs.head?.getD ""
     if o == "ok writes-inside-statement=0" then (caseId, []) else
       (caseId, [s!"VIOLATION case={caseId} sig=lock:page-write-inside-statement:bulk rows={n} got=[{o}]"])
+  | ["slow-open"] =>
+    let o := outs.head?.getD ""
+    if o == "ok" then (caseId, []) else
+      (caseId, [s!"VIOLATION case={caseId} sig=lock:flush-tick-before-header-read got=[{o}]"])
   | ["races"] =>
     let o := outs.head?.getD ""
     if o == "races 0" then (caseId, []) else
